@@ -72,7 +72,12 @@ pub enum RecvOutcome {
 #[derive(Clone, Debug)]
 pub struct SendObs {
     pub planned: u64,
+    /// bytes whose send call returned Ok
     pub written: u64,
+    /// size of the chunk whose send call was in progress / failed (may be partially accepted)
+    pub inflight_chunk: u64,
+    /// finish/close was requested (or the handle dropped) after all planned bytes were accepted
+    pub fin_requested: bool,
     pub outcome: SendOutcome,
     pub t_end_ns: u64,
 }
@@ -116,6 +121,8 @@ pub struct AppLog {
     /// operations in progress (keyed by task name); removed on completion
     pub pending_ops: BTreeMap<String, OpRec>,
     pub ops_completed: u64,
+    /// virtual time of the last completed application operation
+    pub last_progress_ns: u64,
     pub capped_tasks: Vec<String>,
     pub events: u64,
 }
@@ -138,6 +145,13 @@ fn class_of_stream(e: &s2n_quic::stream::Error) -> ErrClass {
         E::ConnectionError { error, .. } => class_of_conn(error),
         _ => ErrClass::Other,
     }
+}
+
+fn io_err_class(e: &std::io::Error) -> ErrClass {
+    e.get_ref()
+        .and_then(|inner| inner.downcast_ref::<s2n_quic::stream::Error>())
+        .map(class_of_stream)
+        .unwrap_or(ErrClass::Other)
 }
 
 // ---------------------------------------------------------------------------------------
@@ -193,6 +207,7 @@ impl TaskCtx {
             let mut a = self.app.lock().unwrap();
             a.pending_ops.remove(&self.name);
             a.ops_completed += 1;
+            a.last_progress_ns = now_ns();
         }
         r
     }
@@ -262,7 +277,8 @@ where
             Poll::Pending
         })
         .await;
-        if hit {
+        // timers also fire when the executor shuts down: only a real cap expiry counts
+        if hit && now_ns() + 1_000_000 >= cap_ns {
             app.lock().unwrap().capped_tasks.push(name);
         }
     }
@@ -292,7 +308,14 @@ async fn send_task(
 ) {
     app.lock().unwrap().sends.insert(
         key,
-        SendObs { planned: script.total, written: 0, outcome: SendOutcome::Pending, t_end_ns: 0 },
+        SendObs {
+            planned: script.total,
+            written: 0,
+            inflight_chunk: 0,
+            fin_requested: false,
+            outcome: SendOutcome::Pending,
+            t_end_ns: 0,
+        },
     );
     let mut written = 0u64;
     let mut idx = 0u32;
@@ -313,6 +336,7 @@ async fn send_task(
         let n = c.min(limit - written) as usize;
         let mut buf = vec![0u8; n];
         payload_fill(data_key, key.conn as u64, key.id, dir, written, &mut buf);
+        app.lock().unwrap().sends.get_mut(&key).unwrap().inflight_chunk = n as u64;
         let res: Result<(), s2n_quic::stream::Error> = match script.mode {
             SendMode::Send => ctx.op("send", s.send(Bytes::from(buf))).await,
             SendMode::Vectored(k) => {
@@ -336,14 +360,9 @@ async fn send_task(
                 match ctx.op("write_all", s.write_all(&buf)).await {
                     Ok(()) => Ok(()),
                     Err(e) => {
-                        // recover the stream error through a zero-length send
-                        match s.send(Bytes::new()).await {
-                            Err(se) => Err(se),
-                            Ok(()) => {
-                                outcome = Some(SendOutcome::Error(ErrClass::Other, format!("{e}")));
-                                break 'outer;
-                            }
-                        }
+                        let cls = io_err_class(&e);
+                        outcome = Some(SendOutcome::Error(cls, format!("{e}")));
+                        break 'outer;
                     }
                 }
             }
@@ -351,7 +370,10 @@ async fn send_task(
         match res {
             Ok(()) => {
                 written += n as u64;
-                app.lock().unwrap().sends.get_mut(&key).unwrap().written = written;
+                let mut a = app.lock().unwrap();
+                let o = a.sends.get_mut(&key).unwrap();
+                o.written = written;
+                o.inflight_chunk = 0;
             }
             Err(e) => {
                 outcome = Some(SendOutcome::Error(class_of_stream(&e), format!("{e:?}")));
@@ -367,6 +389,9 @@ async fn send_task(
         }
     }
     if outcome.is_none() {
+        if !matches!(script.end, SendEnd::Reset { .. }) {
+            app.lock().unwrap().sends.get_mut(&key).unwrap().fin_requested = true;
+        }
         outcome = Some(match &script.end {
             SendEnd::Finish => match s.finish() {
                 Ok(()) => SendOutcome::Finished,
@@ -482,12 +507,7 @@ async fn recv_task(
                         read += len as u64;
                     }
                     Err(e) => {
-                        // recover the precise error
-                        let cls = match r.receive().await {
-                            Err(se) => class_of_stream(&se),
-                            _ => ErrClass::Other,
-                        };
-                        outcome = RecvOutcome::Error(cls, format!("{e}"));
+                        outcome = RecvOutcome::Error(io_err_class(&e), format!("{e}"));
                         break;
                     }
                 }
@@ -517,7 +537,10 @@ struct ConnEnv {
     yield_key: u64,
     cap_ns: u64,
     app: SharedApp,
+    /// units of this side's own stream tasks
     latch: Latch,
+    /// the other side's own latch (harness-level coordination only)
+    peer_latch: Latch,
     /// released when this side observes the end of the connection
     closed: Latch,
 }
@@ -578,13 +601,12 @@ fn spawn_stream_tasks(
     }
 }
 
-/// number of latch units a stream contributes in total (both sides)
-fn latch_units(p: &StreamPlan) -> u64 {
-    // fwd send + fwd recv (+ rev send + rev recv)
+/// latch units one side owes for a stream (its send and/or recv task)
+fn side_units(p: &StreamPlan) -> u64 {
     if p.bidi {
-        4
-    } else {
         2
+    } else {
+        1
     }
 }
 
@@ -593,7 +615,12 @@ async fn opener_task(env: ConnEnv, handle: Handle) {
     let ctx = env.ctx("opener");
     let mut n_bidi = 0u64;
     let mut n_uni = 0u64;
-    for plan in env.script.streams.iter().filter(|p| p.opener == env.role) {
+    let mine: Vec<&StreamPlan> = env.script.streams.iter().filter(|p| p.opener == env.role).collect();
+    let mut failed_at = None;
+    for (k, plan) in mine.iter().enumerate() {
+        if failed_at.is_some() {
+            break;
+        }
         sleep_us(plan.open_delay_us).await;
         if plan.bidi {
             match ctx.op("open_bidi", handle.open_bidirectional_stream()).await {
@@ -609,7 +636,7 @@ async fn opener_task(env: ConnEnv, handle: Handle) {
                 Err(e) => {
                     env.app.lock().unwrap().conns.entry((env.conn, env.role)).or_default().open_err =
                         Some((class_of_conn(&e), format!("{e:?}")));
-                    break;
+                    failed_at = Some(k);
                 }
             }
         } else {
@@ -625,8 +652,16 @@ async fn opener_task(env: ConnEnv, handle: Handle) {
                 Err(e) => {
                     env.app.lock().unwrap().conns.entry((env.conn, env.role)).or_default().open_err =
                         Some((class_of_conn(&e), format!("{e:?}")));
-                    break;
+                    failed_at = Some(k);
                 }
+            }
+        }
+    }
+    if let Some(k) = failed_at {
+        // streams that will never exist: release this side's units
+        for p in &mine[k..] {
+            for _ in 0..side_units(p) {
+                env.latch.done();
             }
         }
     }
@@ -648,11 +683,13 @@ async fn acceptor_task(env: ConnEnv, mut acceptor: StreamAcceptor) {
         };
         by_id.insert(id, p.clone());
     }
+    let mut accepted: std::collections::BTreeSet<u64> = Default::default();
     loop {
         match ctx.op("accept", acceptor.accept()).await {
             Ok(Some(stream)) => {
                 env.app.lock().unwrap().conns.entry((env.conn, env.role)).or_default().accepted_streams += 1;
                 let id = stream.id();
+                accepted.insert(id);
                 let Some(plan) = by_id.get(&id).cloned() else {
                     env.app.lock().unwrap().conns.entry((env.conn, env.role)).or_default().accept_end =
                         Some(format!("unexpected stream id {id}"));
@@ -678,6 +715,14 @@ async fn acceptor_task(env: ConnEnv, mut acceptor: StreamAcceptor) {
             }
         }
     }
+    // streams the peer never opened (from this side's point of view): release our units
+    for (id, p) in &by_id {
+        if !accepted.contains(id) {
+            for _ in 0..side_units(p) {
+                env.latch.done();
+            }
+        }
+    }
     env.closed.done();
 }
 
@@ -695,10 +740,25 @@ async fn drive_connection(env: ConnEnv, handle: Handle, acceptor: StreamAcceptor
     // the acceptor is not primary: if the peer never opens its streams the run still ends
     spawn(capped(name, env.cap_ns, env.app.clone(), acceptor_task(env.clone(), acceptor)));
 
+    // wait until either future resolves
+    async fn either(a: LatchWait, b: LatchWait) {
+        let mut a = Box::pin(a);
+        let mut b = Box::pin(b);
+        core::future::poll_fn(|cx| {
+            if a.as_mut().poll(cx).is_ready() || b.as_mut().poll(cx).is_ready() {
+                Poll::Ready(())
+            } else {
+                Poll::Pending
+            }
+        })
+        .await
+    }
     match env.script.close.clone() {
         CloseSpec::AfterAll { by, code } => {
             env.latch.wait().await;
             if by == env.role {
+                // close once the peer's tasks are done too (or the connection ended anyway)
+                either(env.peer_latch.wait(), env.closed.wait()).await;
                 env.app.lock().unwrap().conns.entry((env.conn, env.role)).or_default().t_closed_by_app_ns =
                     Some(now_ns());
                 handle.close(code.into());
@@ -714,12 +774,12 @@ async fn drive_connection(env: ConnEnv, handle: Handle, acceptor: StreamAcceptor
                 env.app.lock().unwrap().conns.entry((env.conn, env.role)).or_default().t_closed_by_app_ns =
                     Some(now_ns());
                 handle.close(code.into());
-            } else {
-                env.latch.wait().await;
             }
+            env.latch.wait().await;
         }
         CloseSpec::DropHandles => {
             env.latch.wait().await;
+            either(env.peer_latch.wait(), env.closed.wait()).await;
         }
     }
     env.app.lock().unwrap().conns.entry((env.conn, env.role)).or_default().t_done_ns = Some(now_ns());
@@ -796,6 +856,7 @@ macro_rules! build_endpoint {
         let plan: &Plan = $plan;
         let tls_cfg = TlsCfg {
             role: $role,
+            ep: $ep,
             seed: hashn(plan.rand_key, &[0x715]),
             cipher: plan.cfg.cipher,
             cert_size: plan.cfg.cert_size,
@@ -959,14 +1020,16 @@ fn run_inner(
         net.lock().unwrap().hosts.push(Host { addr: server_addr, role: Role::Server, idx: 0 });
         addrs.lock().unwrap().0 = Some(server_addr);
 
-        // latches per connection
-        let latches: Vec<Latch> = plan
+        // latches per connection and side: (client side, server side)
+        let latches: Vec<(Latch, Latch)> = plan
             .conns
             .iter()
             .map(|c| {
-                let l = Latch::default();
-                l.add(c.streams.iter().map(latch_units).sum());
-                l
+                let a = Latch::default();
+                let b = Latch::default();
+                a.add(c.streams.iter().map(side_units).sum());
+                b.add(c.streams.iter().map(side_units).sum());
+                (a, b)
             })
             .collect();
 
@@ -1004,7 +1067,8 @@ fn run_inner(
                         yield_key: plan.yield_key,
                         cap_ns,
                         app: app.clone(),
-                        latch: latches[idx as usize].clone(),
+                        latch: latches[idx as usize].1.clone(),
+                        peer_latch: latches[idx as usize].0.clone(),
                         closed: { let l = Latch::default(); l.add(1); l },
                     };
                     let (h, a) = connection.split();
@@ -1025,7 +1089,8 @@ fn run_inner(
                 yield_key: plan.yield_key,
                 cap_ns,
                 app: app.clone(),
-                latch: latches[i].clone(),
+                latch: latches[i].0.clone(),
+                peer_latch: latches[i].1.clone(),
                 closed: { let l = Latch::default(); l.add(1); l },
             };
             let app2 = app.clone();
@@ -1074,6 +1139,13 @@ fn run_inner(
                         let c = a.conns.entry((env.conn, Role::Client)).or_default();
                         c.connect_err = Some((class_of_conn(&e), format!("{e:?}")));
                         c.t_done_ns = Some(now_ns());
+                        drop(a);
+                        // no stream of this connection will ever run on the client side
+                        for p in &script.streams {
+                            for _ in 0..side_units(p) {
+                                env.latch.done();
+                            }
+                        }
                     }
                 }
                 // keep the endpoint alive until the connection is finished
